@@ -426,13 +426,19 @@ func genAV1Case(t *rapid.T) *AV1Case {
 	mtu := int(c.MTU)
 	nobu := rapid.IntRange(1, 8).Draw(t, "nobus")
 	budget := 600 * (mtu - 1) // bounds a case to about 600 packets (the library's reassemblers copy the growing fragment per packet)
-	// a small alphabet of layer ids makes equal and different ids both likely
+	// a small per-case alphabet of layer ids (drawn from ALL 8 x 4 ids) makes equal and
+	// different ids both likely while every pair of ids can occur
+	nl := rapid.IntRange(1, 3).Draw(t, "nlayers")
+	var layerAlphabet [][2]uint8
+	for i := 0; i < nl; i++ {
+		layerAlphabet = append(layerAlphabet, [2]uint8{uint8(rapid.IntRange(0, 7).Draw(t, "tid")), uint8(rapid.IntRange(0, 3).Draw(t, "sid"))})
+	}
 	for i := 0; i < nobu; i++ {
 		o := OBUSpec{Type: rapid.SampledFrom(av1Types).Draw(t, "type"), Rsv1: rapid.IntRange(0, 7).Draw(t, "rsv1") == 0, Seed: rapid.Uint64().Draw(t, "seed")}
 		if rapid.IntRange(0, 2).Draw(t, "hasext") != 0 {
 			o.HasExt = true
-			o.TID = uint8(rapid.SampledFrom([]int{0, 0, 1, 1, 2, 7}).Draw(t, "tid"))
-			o.SID = uint8(rapid.SampledFrom([]int{0, 0, 1, 3}).Draw(t, "sid"))
+			l := layerAlphabet[rapid.IntRange(0, nl-1).Draw(t, "layer")]
+			o.TID, o.SID = l[0], l[1]
 			o.ExtRsv = uint8(rapid.SampledFrom([]int{0, 0, 0, 7}).Draw(t, "extrsv"))
 		}
 		sp := append([]int{0, 1, 2}, around(3, mtu-1, 2*(mtu-1))...)
@@ -448,11 +454,20 @@ func genAV1Case(t *rapid.T) *AV1Case {
 		budget -= o.Size
 		c.OBUs = append(c.OBUs, o)
 	}
+	if rapid.IntRange(0, 79).Draw(t, "jumbo") == 0 {
+		// one OBU of 64 KiB or more (sizes that no longer fit 16 bits), large MTU
+		c.MTU = uint16(rapid.SampledFrom([]int{1200, 4000, 16000, 65535}).Draw(t, "jumbomtu"))
+		k := rapid.IntRange(0, len(c.OBUs)-1).Draw(t, "jumbowhich")
+		c.OBUs[k].Size = rapid.SampledFrom([]int{65533, 65534, 65535, 65536, 65537, 65540, 70000, 131070, 131073}).Draw(t, "jumbosize")
+		if c.OBUs[k].Type == 2 || c.OBUs[k].Type == 8 {
+			c.OBUs[k].Type = 6
+		}
+	}
 
 	return c
 }
 
-const ruleC13 = "rapid draws 1-8 OBUs (all 16 types weighted to sequence header/frame/temporal delimiter/tile list, optional extension byte with ids from a small alphabet so that equal and different layer ids both occur, reserved bits free, payload sizes {0,1,2, MTU-1+-3, 2(MTU-1)+-3, 127+-4, 16383+-4, 0-700, sometimes up to 17000}), size fields present on all or omitted on the last, optionally non-minimal LEB128 sizes, MTU 2-65535 biased to 2-20, 127-133, 16382-16388; at most about 600 packets per case; one case in six is an 'edge' case: 0-5 small OBUs followed by a large one, with the MTU derived so that the free space in front of the large OBU is 126-130 or 16382-16386 bytes (the LEB128 length-field boundaries). Oracle: independent AV1 RTP parser on every payload (<= MTU, W/length-prefix rule, Z = previous Y, first Z=0, last Y=0, no empty element, has_size_field cleared, one (tid,sid) per packet), byte-exact reassembly, AV1Depacketizer output = OBUs with size fields, AV1Packet + frame.AV1 (directly or through pkg/frame) = OBUs without size field. leb128: WriteToLeb128/ReadLeb128/EncodeLEB128 against an independent codec (quick: +-3 around every 7-bit boundary and drawn values; thorough: all 2^32 values), non-minimal encodings and truncations for the reader. obuheader: all 2^16 byte pairs. Non-trivial = >=2 OBUs with a fragment crossing packets, >=3 elements in one packet, or >=2 distinct layer ids; every leb128/header value; distinct = FNV-64 of the JSON case"
+const ruleC13 = "rapid draws 1-8 OBUs (all 16 types weighted to sequence header/frame/temporal delimiter/tile list, optional extension byte with ids from a per-case alphabet of 1-3 (temporal 0-7, spatial 0-3) pairs so that equal and different layer ids both occur and every pair can, reserved bits free, payload sizes {0,1,2, MTU-1+-3, 2(MTU-1)+-3, 127+-4, 16383+-4, 0-700, sometimes up to 17000, one case in 80 with an OBU of 65533-131073 bytes}), size fields present on all or omitted on the last, optionally non-minimal LEB128 sizes, MTU 2-65535 biased to 2-20, 127-133, 16382-16388; at most about 600 packets per case; one case in six is an 'edge' case: 0-5 small OBUs followed by a large one, with the MTU derived so that the free space in front of the large OBU is 126-130 or 16382-16386 bytes (the LEB128 length-field boundaries). Oracle: independent AV1 RTP parser on every payload (<= MTU, W/length-prefix rule, Z = previous Y, first Z=0, last Y=0, no empty element, has_size_field cleared, one (tid,sid) per packet), byte-exact reassembly, AV1Depacketizer output = OBUs with size fields, AV1Packet + frame.AV1 (directly or through pkg/frame) = OBUs without size field. leb128: WriteToLeb128/ReadLeb128/EncodeLEB128 against an independent codec (quick: +-3 around every 7-bit boundary and drawn values; thorough: all 2^32 values), non-minimal encodings and truncations for the reader. obuheader: all 2^16 byte pairs. Non-trivial = >=2 OBUs with a fragment crossing packets, >=3 elements in one packet, or >=2 distinct layer ids; every leb128/header value; distinct = FNV-64 of the JSON case"
 
 func TestC13(t *testing.T) {
 	r := begin(t, "C13", "exploration", ruleC13)
